@@ -81,13 +81,26 @@ def run(mod, tier, seed, replay=None):
     for c in cases:
         if c["lane"] not in lanes:
             lanes.append(c["lane"])
-    for lane in lanes:
+    # the lanes (installed binding / fresh build / sanitizer build) run side by side, sharing the worker budget
+    import threading
+    total_jobs = int(os.environ.get("VERIF_JOBS", "0")) or min(16, os.cpu_count() or 4)
+    weights = {lane: sum(1 for c in cases if c["lane"] == lane) * (2.0 if lane == "san" else 1.0) for lane in lanes}
+    wsum = sum(weights.values()) or 1.0
+
+    def run_lane(lane):
         sub = [c for c in cases if c["lane"] == lane]
-        res = _pool.run_cases(mod.__name__, sub, lane=lane, case_timeout=getattr(mod, "CASE_TIMEOUT", 180),
+        jobs = total_jobs if len(lanes) == 1 else max(1, int(round(total_jobs * weights[lane] / wsum)))
+        res = _pool.run_cases(mod.__name__, sub, lane=lane, jobs=jobs, case_timeout=getattr(mod, "CASE_TIMEOUT", 180),
                               run_dir=os.path.join(run_dir, lane), deadline=deadline,
-                              progress=(500 if tier == "thorough" else None))
+                              progress=(500 if tier == "thorough" and lane == lanes[0] else None))
         for c, r in zip(sub, res):
             results[c["idx"]] = r
+
+    threads = [threading.Thread(target=run_lane, args=(lane,)) for lane in lanes]
+    for t in threads:
+        t.start()
+    for t in threads:
+        t.join()
 
     # ---- offline checker over the recorded results
     monitors = {}
